@@ -99,6 +99,36 @@ def hooked_tap(rec, ctl):
     return Hooked
 
 
+class ParkCtl:
+    """Parks the victim's reader thread right after read_message() returned a message of an armed type, i.e.
+    after the message was read and before the transport dispatches it."""
+
+    def __init__(self):
+        self.types = ()
+        self.armed = False
+        self.parked = threading.Event()
+        self.release = threading.Event()
+        self.resumed = False
+
+    def arm(self, types):
+        self.types = tuple(types)
+        self.parked.clear()
+        self.release.clear()
+        self.resumed = False
+        self.armed = True
+
+
+def parking_tap(rec, ctl, side="v"):
+    def on_read(tp, ptype, m):
+        if ctl.armed and ptype in ctl.types:
+            ctl.armed = False
+            ctl.parked.set()
+            ctl.release.wait(180)
+            ctl.resumed = True
+
+    return tap.make_tap(rec, side, on_read=on_read)
+
+
 def wait_until(cond, limit):
     end = time.monotonic() + limit
     while time.monotonic() < end:
